@@ -1,4 +1,5 @@
 import ScryerModel.Proofs.NumCmp
+import ScryerModel.Extracted.CmpInstrs
 /-
 C04 — Arithmetic comparison is exact and self-consistent.
 
@@ -108,6 +109,25 @@ theorem C04_antisymmetry (c : Conv) (a b : Number) :
     in all 16 arms. -/
 theorem C04_eq_arm_agrees (c : Conv) (a b : Number) : eqWith c a b = holdsWith c .eq a b := by
   rw [eqWith_iff_cmp]; rfl
+
+/-! ### the instructions (table extracted from dispatch.rs on every run) -/
+
+/-- on which orderings the extracted instruction `(v, op)` succeeds; `none` if it is not in the table. -/
+def instrAccepts (v : Variant) (op : CmpOp) (o : Ordering) : Option Bool :=
+  match Scryer.Extracted.cmpInstrTable.find? (fun r => r.1 == v && r.2.1 == op) with
+  | some r => some (r.2.2.contains o)
+  | none => none
+
+/-- Compiled comparison and run-time (metacall) comparison agree: all 24 comparison instructions found
+    in the current dispatch.rs — `CallNumber…` / `ExecuteNumber…` emitted for a comparison in a clause
+    body, their `Default…` twins, and the `ExecuteNumber…` stubs that `call/N` reaches — succeed on exactly
+    the orderings `CmpOp.accepts` lists, whatever the variant. -/
+theorem C04_instruction_table :
+    Scryer.Extracted.cmpInstrTable.length = 24 ∧
+    ∀ v : Variant, ∀ op : CmpOp, ∀ o : Ordering, instrAccepts v op o = some (op.accepts o) := by
+  refine ⟨by decide, ?_⟩
+  intro v op o
+  cases v <;> cases op <;> cases o <;> decide
 
 /-! ### transitivity -/
 
